@@ -7,7 +7,7 @@ import sys
 import traceback
 
 from .core import Run, AnalysisError, VERIF
-from .values import Fail
+from .values import Fail, RaiseEx
 
 
 def run_one(pid, tier, replay=None):
@@ -18,9 +18,16 @@ def run_one(pid, tier, replay=None):
         return 2
     run = Run(pid, tier, level=getattr(mod, 'LEVEL', 'other'))
     try:
-        mod.check(run)
+        try:
+            mod.check(run)
+        except (AnalysisError, Fail, RaiseEx) as e:
+            # the analysis stopped early. A violation that was already established stands (it does not depend on the rest);
+            # without one the run is undecided.
+            if not run.unlisted_failures():
+                raise
+            print(f'INFO analysis stopped after a violation was established: {type(e).__name__}: {e}')
         return run.finish()
-    except (AnalysisError, Fail) as e:
+    except (AnalysisError, Fail, RaiseEx) as e:
         print(f'ANALYSIS-ERROR property={pid} {type(e).__name__}: {e}')
         return 2
     except Exception as e:          # a traceback must never look like a violation
